@@ -121,6 +121,15 @@ func (e *engine) checkMergeLine(worker int, raw []byte) error {
 	}
 	e.rep.Count("transitions", 1)
 	last := patches[len(patches)-1]
+	if lib.Dialect == "v4" {
+		// C19: object or array patches only (the legacy package rejects literal and null patches)
+		for _, p := range patches {
+			if p.T != "obj" && p.T != "arr" {
+				e.rep.Label("LegacyOutsideDomain")
+				return nil
+			}
+		}
+	}
 	e.rep.Label("Merge_" + last.T)
 	if len(patches) == 2 && ln.Compat {
 		e.rep.Label("ComposeCompatible")
@@ -204,7 +213,7 @@ func (e *engine) checkMergeLine(worker int, raw []byte) error {
 			continue
 		}
 		// C07: the combined patch
-		if e.prop == "C07" && len(patches) == 2 && ln.Compat {
+		if (e.prop == "C07" || e.prop == "C19") && len(patches) == 2 && ln.Compat {
 			composed, err := jsonread.FromWire(ln.Composed)
 			if err != nil {
 				continue
@@ -286,6 +295,11 @@ func (e *engine) checkDiffLine(worker int, raw []byte) error {
 		return err
 	}
 	e.rep.Count("transitions", 1)
+	if lib.Dialect == "v4" && (ln.Kind != "obj" || !ln.Roundtrip || !floatSpelled(a) || !floatSpelled(b)) {
+		// C19: objects whose numbers are spelled the way Go prints a float64, B without null members
+		e.rep.Label("LegacyOutsideDomain")
+		return nil
+	}
 	e.rep.Label("Create_" + ln.Kind)
 	if ln.Kind == "dc" {
 		return nil
@@ -376,4 +390,37 @@ func (e *engine) checkDiffLine(worker int, raw []byte) error {
 	}
 	e.rep.Sample(map[string]interface{}{"a": string(jsonread.Canonical.Render(a)), "b": string(jsonread.Canonical.Render(b)), "spec_kind": ln.Kind})
 	return nil
+}
+
+// floatSpelled: every number literal is a plain integer below 2^53 (spelled as Go prints that float64).
+func floatSpelled(v *jsonread.Value) bool {
+	switch v.T {
+	case "num":
+		lit := v.Lit
+		if len(lit) > 0 && lit[0] == '-' {
+			lit = lit[1:]
+		}
+		if len(lit) == 0 || len(lit) > 15 || (len(lit) > 1 && lit[0] == '0') {
+			return false
+		}
+		for _, c := range lit {
+			if c < '0' || c > '9' {
+				return false
+			}
+		}
+		return v.Lit != "-0"
+	case "arr":
+		for _, e := range v.E {
+			if !floatSpelled(e) {
+				return false
+			}
+		}
+	case "obj":
+		for _, m := range v.M {
+			if !floatSpelled(m.V) {
+				return false
+			}
+		}
+	}
+	return true
 }
